@@ -319,7 +319,9 @@ def rdflib_writer_modes(ctx, rng):
                                "summary": f"rdflib {entry} output (delimited={delimited}) does not parse: {type(ex).__name__}"})
             ctx.case(("rdflib-mode", entry, delimited, data[:3].hex(), len(stmts)), True,
                      sample={"kind": "rdflib writer mode", "entry": entry, "delimited": delimited, "header": data[:3].hex()})
-        if len(res) == 2 and not (res[True] == res[False] == want):
+        # both modes must parse alike; against the input only as a SET (an rdflib store keeps "x" and "x"^^xsd:string
+        # apart, the neutral model does not)
+        if len(res) == 2 and not (res[True] == res[False] and {repr(e) for e in res[True]} == {repr(e) for e in want}):
             ctx.violation({"clause": "paired-parse-differs", "summary": f"rdflib {entry}: the two modes do not parse to the same statements"})
 
 
